@@ -776,7 +776,11 @@ func (ch *child) runCase(d caseDesc) {
 			return
 		}
 	}
-	c.Send(msg) // a failed write shows up as a missing answer below
+	if rq.OneFrame && cs.secure {
+		c.SendOneFrame(msg)
+	} else {
+		c.Send(msg) // a failed write shows up as a missing answer below
+	}
 	if rq.Tail != nil {
 		time.Sleep(2 * time.Millisecond)
 		c.Send(rq.Tail)
@@ -993,7 +997,9 @@ func (ch *child) conclude(p *pending, usable bool) {
 	// ---- the answer itself
 	switch a.kind {
 	case "closed":
-		if !panicked {
+		if !panicked && rq.MayClose {
+			res.Counts["framing_violations_answered_by_closing"]++
+		} else if !panicked {
 			p.addViol("dropped:"+where+":"+d.Class, fmt.Sprintf("the connection was closed without a response (%s, %s)", where, rq.Variant), ch.witness(p))
 		}
 	case "malformed":
